@@ -131,6 +131,29 @@ class BuildDirs:
         with self._lock:
             self._handle_dir_exists(norm_cased_dir)
 
+    def created_cache_file_dirs(self, created_dirs):
+        """Handle creating directories to store the cache file.
+
+        Directories that only exist in order to store the cache file are
+        not present in the virtual state of the file system, just like
+        the cache file itself. In later builds this follows from their
+        being directories the previous build created. This method makes
+        it so in the build that first creates them, so that every build
+        presents the same virtual state.
+
+        Arguments:
+            created_dirs (list<str>): The non-norm-cased directories we
+                created in order to store the cache file.
+        """
+        with self._lock:
+            for dir_ in created_dirs:
+                norm_cased_dir = os.path.normcase(dir_)
+                if (norm_cased_dir not in self._build_dir_counts and
+                        norm_cased_dir not in self._removed_dirs):
+                    self._maybe_removed_dirs.add(norm_cased_dir)
+            if created_dirs:
+                self._exists_dirs.clear()
+
     def started_building_file(self, filename, created_dirs):
         """Handle starting to build a file.
 
